@@ -17,9 +17,9 @@ RULE = ("document pairs of every type x type-selection grid {none, --X-TYPE, --X
         "suggests, or an alias pair is compared, and the documents differ; distinct = distinct argv + documents")
 ASSUMPTIONS = ["the library composition mirrors the documented public API; it is validated byte-for-byte against main() on the plain cases",
                "stderr is not compared"]
-MINIMUMS = {"quick": {"cli_on_a_terminal": 600, "cli_vs_library": 3000, "alias_pairs": 1500, "explicit_type_overrides_name:first": 300,
+MINIMUMS = {"quick": {"file_on_standard_input:first": 100, "file_on_standard_input:second": 100, "cli_on_a_terminal": 600, "cli_vs_library": 3000, "alias_pairs": 1500, "explicit_type_overrides_name:first": 300,
                       "explicit_type_overrides_name:second": 300},
-            "thorough": {"cli_on_a_terminal": 12000, "cli_vs_library": 60000, "alias_pairs": 30000, "explicit_type_overrides_name:first": 6000,
+            "thorough": {"file_on_standard_input:first": 2000, "file_on_standard_input:second": 2000, "cli_on_a_terminal": 12000, "cli_vs_library": 60000, "alias_pairs": 30000, "explicit_type_overrides_name:first": 6000,
                          "explicit_type_overrides_name:second": 6000}}
 SELECT = ["none", "flag", "mime"]
 
@@ -153,9 +153,19 @@ def check(case, ctx):
             # default; the library side then prints with ansi_color=True
             h = core.case_hash([case["sa"], case["sb"], case["ea"], case["eb"], repr(case["a"])]) % 3
             status_on, tty = h != 1, h == 2
+            # a file whose type is given explicitly may also arrive on standard input ('-'): no name to guess from at all
+            h2 = core.case_hash([repr(case["b"]), case["sa"], case["sb"], case["ea"]]) % 5
+            via_stdin = "first" if (h2 == 0 and case["sa"] != "none") else ("second" if (h2 == 1 and case["sb"] != "none") else None)
+            stdin = None
+            if via_stdin:
+                with open(pa if via_stdin == "first" else pb, "rb") as fh:
+                    stdin = fh.read()
+                if ctx is not None:
+                    ctx.count("file_on_standard_input:" + via_stdin)
             argv = ([] if status_on else ["--no-status"]) + sel_args("from", case["sa"], case["ta"]) \
-                + sel_args("to", case["sb"], case["tb"]) + mode + cli_opts(case) + [pa, pb]
-            res = monitors.run_main(argv, real_files=status_on, tty=tty)
+                + sel_args("to", case["sb"], case["tb"]) + mode + cli_opts(case) \
+                + ["-" if via_stdin == "first" else pa, "-" if via_stdin == "second" else pb]
+            res = monitors.run_main(argv, real_files=status_on, tty=tty, stdin=stdin)
             if ctx is not None and status_on:
                 ctx.count("cli_on_a_terminal" if tty else "cli_with_status_output_and_real_fds")
             try:
